@@ -41,9 +41,10 @@ THEOREM_CLASSES = {
     "C10_explicit_ops_frame": "corollary", "C10_realloc_grow_safe": "corollary",
     "C10_leaf_flag_sound": "main", "C10_reachable_kept": "main", "C10_no_abort": "main",
     "C10_repaired_code_facts": "tripwire", "C10_every_op_safe": "main",
+    "C10_stacktop_discipline": "main", "C10_main_stack_kept": "main", "C10_coroutine_stack_kept": "corollary",
 }
 UNPROVED = [
-    "that the real scan of stack and registers covers every live pointer of the main program and of suspended/running coroutines (setjmp, frame address, gc:setstacktop around coroutine.resume): no model; the stack words are supplied by the history; sampled by the history streams and by the coroutine stream (harness/C10/gccodriver.nelua), incl. failed resumes from main followed by cycles in deeper frames",
+    "stack clause: the collector-side logic is modelled (coq/C10/CoStack.v: gc.stacktop bracket of coroutine.resume incl. refused resumes, main stack frames, coroutine stacks as registered items) and proved (C10_stacktop_discipline, C10_main_stack_kept, C10_coroutine_stack_kept); NOT modelled: that the words of the real machine stack / registers (setjmp, frame address) and of the coroutine's mmap'd block are exactly what the history supplies, and the context switch itself; the CoStack layer is not run against the implementation command by command - its tie is the scraped order of gc:setstacktop(0) vs the error return, and the coroutine stream (harness/C10/gccodriver.nelua: blocks held only in coroutine frames / in deep main frames, refused resumes from main followed by cycles), which is testing",
     "that the pointer being (re)registered sits in a scanned slot while GC:register/GC:reregister may run a cycle: assumed by the model (ptr :: stk), restated as C10_alloc_fresh_survives_if_scanned, observed on the real collector by every history in the 'auto*' modes",
     "a realloc that MOVES its block and triggers a cycle: no frame theorem of its own (C10_every_op_safe excludes it; C10_sweep_safe applies to the intermediate state, which satisfies the invariant)",
     "finalizers that allocate or deallocate OTHER blocks are outside the model; GC:destroy's repeated sweep (2edb035) is therefore tied by one replayed exit witness only",
@@ -54,7 +55,7 @@ UNPROVED = [
     "'exactly once by normal exit' is proved as: called exactly once OR dropped exactly once by an explicit gc:unregister of the program (C10_finalize_exactly_once_or_unregistered_at_exit), and only when no assert fired",
 ]
 MANIFEST_ENTRY = {
-    "text": "proof, partial: theorems (over all mutator histories of an executable model of gc.nelua) for byte accounting, address-mask soundness, mark completeness and soundness, 'a reachable block keeps flags/size/finalizer/contents and is neither freed nor finalized' for every command except a moving realloc (C10_every_op_safe, C10_reachable_kept), finalizers at most once and exactly-once-or-explicitly-unregistered at exit, no garbage after one cycle, LEAF flag soundness, no collector assertion on well-formed histories; resting on differential testing only: that the model is the code (history-by-history correspondence against the real collector with an independent reachability/leak/finalizer oracle), conservative stack/register/coroutine-stack scanning, moving realloc cycles, finalizers that allocate, hashmap internals",
+    "text": "proof, partial: theorems (over all mutator histories of an executable model of gc.nelua) for byte accounting, address-mask soundness, mark completeness and soundness, 'a reachable block keeps flags/size/finalizer/contents and is neither freed nor finalized' for every command except a moving realloc (C10_every_op_safe, C10_reachable_kept), finalizers at most once and exactly-once-or-explicitly-unregistered at exit, the stack clause at the collector's level (gc.stacktop discipline across accepted and refused resumes; blocks referenced from any main-stack frame or from a reachable coroutine object's stack memory survive), no garbage after one cycle, LEAF flag soundness, no collector assertion on well-formed histories; resting on differential testing only: that the model is the code (history-by-history correspondence against the real collector with an independent reachability/leak/finalizer oracle), conservative stack/register/coroutine-stack scanning, moving realloc cycles, finalizers that allocate, hashmap internals",
     "note": "trusted: Coq kernel, regex scrapes into Gen.v, ExtrOcamlBasic extraction, coq/C10/driver.ml (feeds real addresses and conservatively retained blocks of alloc/realloc-triggered cycles to the model; explicit cycles must need none), harness/C10/*.nelua, gcc; assumes gc.items/rootitems are finite maps (lib/hashmap.nelua is property C12's model), 64-bit target, the pointer under registration is in a scanned slot",
     "technique": "machine-checked proof in Coq over an executable model + regenerated parameters + extracted-model/implementation correspondence on generated histories with an independent oracle",
 }
@@ -120,6 +121,21 @@ def gen(ctx):
         out["DESTROY_SWEEPS"] = 1
     else:
         raise RuntimeError("cannot recognise the sweep (loop) of GC:destroy")
+    # coroutine.resume: the main stack top saved for the collector is reset BEFORE the error return
+    cosrc = vlib.repo_read("lib/coroutine.nelua")
+    mr = re.search(r"function coroutine\.resume\(.*?\n(.*?)\nend\n", cosrc, re.S)
+    if not mr:
+        raise RuntimeError("cannot find coroutine.resume")
+    body = mr.group(1)
+    i_set = body.find("gc:setstacktop()")
+    i_res = body.find("minicoro.resume(co)")
+    i_reset = body.find("gc:setstacktop(0)")
+    i_ret = body.find("return false", i_res)
+    if min(i_set, i_res, i_reset, i_ret) < 0 or not (i_set < i_res):
+        raise RuntimeError("cannot recognise the stack-top bracket of coroutine.resume")
+    out["STACKTOP_RESET_BEFORE_ERROR_RETURN"] = i_res < i_reset < i_ret
+    if not re.search(r"self\.stacktop\s*==\s*0\s+and\s+\(@usize\)\(&regsbuf\)\s+or\s+self\.stacktop", gcsrc):
+        raise RuntimeError("cannot find the 'stacktop == 0 and current frame or stacktop' rule of GC_scanstack")
     out["WORD_SIZE"] = 8
     txt = ("(* GENERATED by checks/C10.py from /repo (lib/allocators/gc.nelua, lib/allocators/allocator.nelua) - do not edit *)\n"
            "From Coq Require Import ZArith.\n")
@@ -130,7 +146,7 @@ def gen(ctx):
     txt += "Definition DEFAULT_PAUSE : Z := %d%%Z.\n" % out["DEFAULT_PAUSE"]
     txt += "Definition PAUSE_SCALE : Z := %d%%Z.\n" % out["PAUSE_SCALE"]
     txt += "Definition DESTROY_SWEEPS : nat := %d.\n" % out["DESTROY_SWEEPS"]
-    for name in ("AUTO_LEAF_ON_REGISTER", "SCAN_SIZE_TEST", "RESIZE_BEFORE_STEP"):
+    for name in ("AUTO_LEAF_ON_REGISTER", "SCAN_SIZE_TEST", "RESIZE_BEFORE_STEP", "STACKTOP_RESET_BEFORE_ERROR_RETURN"):
         txt += "Definition %s : bool := %s.\n" % (name, "true" if out[name] else "false")
     vlib.write_if_changed(os.path.join(vlib.coq_dir(ID), "Gen.v"), txt)
     return out
@@ -927,6 +943,8 @@ def check_coscript(ops, rc, out, err):
         elif w[0] == "C":
             stats["collects"] += 1
         stats["blocks"] += len(news)
+        if " st=1 " in summ:
+            P.append(("stacktop-stale", "command %d '%s': gc.stacktop is not zero while the main program runs (the collector would scan the main stack only above a stale address)" % (idx, op)))
         now_guarded = set()
         for k, fr in frames.items():
             if protected.get(k):
